@@ -343,7 +343,7 @@ func c12TreeGen(tier Tier) TreeGen {
 		RootKinds: []string{"AND", "OR", "LIST", "NOT"},
 		Leaf:      func(t *rapid.T) Val { return genPrimVal(t, true, false) },
 		Conds:     true, CondExprStack: true, CondExprCond: true, InvalidConds: true,
-		Options: true, Wraps: true, NilLeaves: true, EmptyStacks: true, IndexOpts: true, Caps: true, FIFOOpt: true, DeepChains: true, Ambient: true, WideRuns: true, NoNestAfter: true, ReadOnlyNodes: true, EqPolicies: true,
+		Options: true, Wraps: true, NilLeaves: true, EmptyStacks: true, IndexOpts: true, Caps: true, FIFOOpt: true, DeepChains: true, Ambient: true, Pasts: true, WideRuns: true, NoNestAfter: true, ReadOnlyNodes: true, EqPolicies: true,
 	}
 	if tier.Thorough {
 		g.MaxDepth, g.MaxWidth, g.Budget = 4, 5, 36
